@@ -21,7 +21,7 @@ THEOREMS = [
 ]
 
 FORMAT_THEOREMS = [
-    "C15_format_agree_partial", "C15_format_agree_plain_partial", "C15_format_codec_list", "C15_format_codec_dict",
+    "C15_format_agree_partial", "C15_format_agree_builtin_partial", "C15_format_agree_plain_partial", "C15_format_codec_list", "C15_format_codec_dict",
     "C15_format_decode_agree", "C15_format_decode_agree_data", "C15_format_priority_refuted",
 ]
 
@@ -1187,7 +1187,7 @@ def run(ctx: vlib.Ctx):
         L.unload_module(mod)
 
     # ---------------- (M) correspondence of the format part of the model (C15Format.v over the K2/K13 kernels)
-    ctx.theorems("props/C15_formats.vo", FORMAT_THEOREMS, kernels=["K2", "K13"])
+    ctx.theorems("props/C15_formats.vo", FORMAT_THEOREMS, kernels=["K2", "K13", "K13C"])
     ctx.coqchk(["VerifProps.C15_entrypoints", "VerifProps.C15_formats"])
     from harness import c15fmt_tie
     tied_for_formats = [(sc, vals) for (sc, vals, src, mod) in loaded if not sc.wide and "~" not in str(sc.sid) and not str(sc.sid).startswith("fx")]
